@@ -253,7 +253,31 @@ def r_effect(ctx) -> RuleResult:
             res.fail(Finding("R-EFFECT", fi.module.rel, fi.qualname, "return", f"{fi.name} may return its argument itself instead of a relabelled copy", line=fi.node.lineno))
     # explored: initialised before read, in the same call
     ser_clo = closure(ctx, "serialize")
+    ser_fqs = {f.fq for f in ser_clo}
     n_reads = 0
+    all_inits: dict = {}
+
+    def inits_of(f_):
+        if f_.fq not in all_inits:
+            out_ = []
+            for n_ in own_walk(f_.node):
+                if isinstance(n_, ast.Call):
+                    cs_ = ctx.cg.resolve_call(f_, n_, ctx.cg.local_types(f_), set(params_of(f_.node)))
+                    if cs_.kind == "ext" and cs_.target == "networkx.set_node_attributes" and len(n_.args) >= 3 and try_const(ctx, f_, n_.args[2]) == explored:
+                        out_.append(n_)
+            all_inits[f_.fq] = out_
+        return all_inits[f_.fq]
+
+    def initialised_before(f_, node, depth=0) -> bool:
+        """the initialisation dominates `node` in f_, or dominates every call of f_ (in the serializer) in its callers"""
+        c_ = cfg_of(f_.node)
+        rn_ = c_.stmt_node_containing(node)
+        if any(c_.stmt_node_containing(i) is not None and rn_ is not None and c_.dominates(c_.stmt_node_containing(i), rn_) and c_.stmt_node_containing(i) != rn_ for i in inits_of(f_)):
+            return True
+        if depth > 4:
+            return False
+        callers = [cs_ for cs_ in ctx.cg.callers_of(f_.fq) if cs_.caller.fq in ser_fqs and cs_.caller.fq != f_.fq]
+        return bool(callers) and all(initialised_before(cs_.caller, cs_.node, depth + 1) for cs_ in callers)
     for fi in ser_clo:
         fn = fi.node
         cfg = cfg_of(fn)
@@ -272,7 +296,7 @@ def r_effect(ctx) -> RuleResult:
         for r in reads:
             n_reads += 1
             rn = cfg.stmt_node_containing(r)
-            ok = any(cfg.stmt_node_containing(i) is not None and rn is not None and cfg.dominates(cfg.stmt_node_containing(i), rn) and cfg.stmt_node_containing(i) != rn for i in inits)
+            ok = initialised_before(fi, r)
             res.inst(fi.fq, f"read `{short(r)}` dominated by the initialisation of `{explored}`", "ok" if ok else "fail")
             if not ok:
                 res.fail(Finding("R-EFFECT", fi.module.rel, fi.qualname, norm(r), f"`{explored}` is read before it is initialised in this call: a value left over from an earlier serialisation changes the result", line=r.lineno))
